@@ -111,8 +111,8 @@ impl Scenario for C19S {
     }
     fn count(&self, tier: Tier, _variant: &str) -> u64 {
         match tier {
-            Tier::Quick => 10000,
-            Tier::Thorough => 600_000,
+            Tier::Quick => 60_000,
+            Tier::Thorough => 2_000_000,
         }
     }
     fn rule(&self) -> &'static str {
